@@ -208,6 +208,19 @@ pub fn c15_case(rep: &mut Report, seed: u64, idx: u64, verbose: bool) {
         }
     }
     // ---- monitors over the tap ----
+    // A hostile peer that answers with a token frame addressed to the station can hand it a second token (the
+    // station accepts it by its own rules, C11).  Seen by the probe as "uses the token" outside every
+    // holding reconstructed from the environment's tokens: from then on there are two token holders
+    // and what follows is not judged.
+    if let (Some(first), Some(last)) = (holdings.first(), holdings.last()) {
+        let lat = cfg.lat() + cfg.period;
+        let stray = rig.use_token_entries.iter().find(|t| **t > first.0 && **t < last.1 && !holdings.iter().any(|(a, b)| **t >= *a && **t <= *b + lat));
+        if let Some(t) = stray {
+            rep.count("C15_cases_cut_at_token_accepted_from_hostile_peer");
+            let c = *t + cfg.tslot();
+            cut_at = Some(cut_at.map(|x| x.min(c)).unwrap_or(c));
+        }
+    }
     let mut taps: Vec<(usize, TapEv)> = rig.world.stations[0].apps.drain_tap();
     if let Some(c) = cut_at {
         // (one slot time of margin: the last holding before the cut ended with the first, unheard pass)
@@ -381,6 +394,9 @@ pub fn c15_case(rep: &mut Report, seed: u64, idx: u64, verbose: bool) {
                 continue;
             }
             let (a, b) = holdings[h];
+            if cut_at.map(|c| b >= c - cfg.tslot()).unwrap_or(false) {
+                break;
+            }
             let hold_end = holdings[h - 1].0 + ttr_us - cfg.bits(cfg.slot_bits as u64 + 100) - 2 * cfg.period - cfg.bits(40);
             if b >= hold_end {
                 rep.count("C15_P6_visits_ended_by_hold_time");
